@@ -119,8 +119,8 @@ def replay(ck, label, matrix, per_kind, nreq=6, timeout=2400, parallel=12, shard
             for f in ("v", "after", "during"):
                 if isinstance(d, dict) and f in d:
                     key["verb"] = d[f]
-            rec = (key, "%s on %s: rule %s failed at trace line %d: %s (history %s, traffic %s, pacing %s)" % (
-                label, agent, c["class"], c["l"] - ix["line"], json.dumps(d), json.dumps(h["seq"]), h["traffic"], h.get("pacing")),
+            rec = (key, "%s on %s: rule %s failed at trace line %d: %s (history %s, traffic %s, pacing %s, back-pressure %s)" % (
+                label, agent, c["class"], c["l"] - ix["line"], json.dumps(d), json.dumps(h["seq"]), h["traffic"], h.get("pacing"), h.get("bp", False)),
                 {"driver": "ctrl_trace", "agents": [agent], "kinds": agents, "histories": [h], "exact_seed": ix["seed"], "case": c})
             (notes if c["class"] in NOTE_ONLY else found).append(rec)
         for m in out.get("mismatches") or []:
@@ -144,6 +144,10 @@ def replay(ck, label, matrix, per_kind, nreq=6, timeout=2400, parallel=12, shard
         ck.cov["data_responses_observed"] += out.get("data_rsps", 0)
         ck.cov.setdefault("runs_hitting_deadline", 0)
         ck.cov["runs_hitting_deadline"] += out.get("timeouts", 0)
+        ck.cov.setdefault("requester_stalls", 0)
+        ck.cov["requester_stalls"] += out.get("stalls", 0)
+        ck.cov.setdefault("acks_with_top_outgoing_full", {})
+        ck.cov["acks_with_top_outgoing_full"][agent] = out.get("full_at_ack", 0)
     ck.cov["traces_validated_against_impl"] += total_runs
     ck.cov["evaluations"] += total_events
     ck.note("%s: %d runs on %d agents, %d trace events monitored, %d rule failures/mismatches, %d notes" % (
